@@ -37,7 +37,7 @@ def build(cls, bits, route):
 
 @st.composite
 def lbi_case(draw, tier):
-    return {'cls': draw(cls_st), 'bits': draw(bits_st(max_len=1100 if tier == 'quick' else 9000, long=True)), 'route': draw(route_st())}
+    return {'cls': draw(cls_st), 'bits': draw(bits_st(max_len=17000 if draw(st.integers(0, 3)) == 0 else 1100, long=True)), 'route': draw(route_st())}
 
 
 def run_lbi(case):
@@ -217,11 +217,11 @@ def run_small(case):
 
 
 SUBCHECKS = [
-    Sub('C01.len_bool_iter', run_lbi, strategy=lbi_case, examples={'quick': 3000, 'thorough': 30000}),
-    Sub('C01.index', run_index, strategy=index_case, examples={'quick': 6000, 'thorough': 80000}),
-    Sub('C01.slice', run_slice, strategy=slice_case, examples={'quick': 12000, 'thorough': 200000}),
-    Sub('C01.concat', run_concat, strategy=concat_case, examples={'quick': 12000, 'thorough': 200000}),
-    Sub('C01.repeat', run_repeat, strategy=repeat_case, examples={'quick': 6000, 'thorough': 80000}),
+    Sub('C01.len_bool_iter', run_lbi, strategy=lbi_case, ambient=('bytealigned',), examples={'quick': 3000, 'thorough': 30000}),
+    Sub('C01.index', run_index, strategy=index_case, ambient=('bytealigned',), examples={'quick': 6000, 'thorough': 80000}),
+    Sub('C01.slice', run_slice, strategy=slice_case, ambient=('bytealigned',), examples={'quick': 12000, 'thorough': 200000}),
+    Sub('C01.concat', run_concat, strategy=concat_case, ambient=('bytealigned',), examples={'quick': 12000, 'thorough': 200000}),
+    Sub('C01.repeat', run_repeat, strategy=repeat_case, ambient=('bytealigned',), examples={'quick': 6000, 'thorough': 80000}),
     Sub('C01.small_world', run_small, enum=small_world, examples={'quick': 0, 'thorough': 0},
         enum_exhaustive_note='every content of length <= 5 (quick) / <= 7 (thorough) x every index in [-n-2, n+2] x every (start, stop) in '
                              '({None} u [-n-2, n+2])^2 x step in {None, +-1, +-2, +-3} x 4 classes'),
